@@ -85,7 +85,10 @@ Kx2Ok(e, x) == IF x[1] = "err" THEN e.outcome = "err"
 Kx2Kind(e, x) == IF Crash(e) THEN e.outcome ELSE IF x[1] = "err" THEN "accepted-invalid-point" ELSE IF e.outcome # "ok" THEN "honest-run-failed"
                  ELSE IF e.key # x[2].k THEN "nonconforming-key" ELSE IF e.sb # x[2].sb THEN "nonconforming-SB" ELSE "wrong-RB"
 Kx2b(e, x) == Stay /\ tlast' = Verdict(e, Kx2Ok(e, x), "step2." \o e.tamper, Kx2Kind(e, x))
-Kx2(e) == Kx2b(e, Kx2Exp(e, IF JCanon(e.ra_in) THEN Denote(e.ra_in) ELSE <<"bad">>, Mul(e.r, G)))
+\* (no ephemeral scalar was logged -- the call crashed or failed before drawing it: only a rejection of an invalid R_A can be confirmed)
+Kx2NoR(e, rcv) == Stay /\ tlast' = Verdict(e, e.outcome = "err" /\ ~RecvOK(rcv), "step2." \o e.tamper, IF Crash(e) THEN e.outcome ELSE "failed-before-drawing")
+Kx2(e) == IF Len(e.r) # 32 THEN Kx2NoR(e, IF JCanon(e.ra_in) THEN Denote(e.ra_in) ELSE <<"bad">>)
+          ELSE Kx2b(e, Kx2Exp(e, IF JCanon(e.ra_in) THEN Denote(e.ra_in) ELSE <<"bad">>, Mul(e.r, G)))
 \* step 3 (A): receives RB', SB'; outputs SA, KA
 Kx3Exp(e, rcv, ra) == IF ~RecvOK(rcv) THEN <<"err">>
                       ELSE <<"ok", KxInitiator(BFromBE(e.d), BFromBE(e.r), ra, PtB(e), rcv, KxZ(e, "A"), KxZ(e, "B"), e.klen)>>
